@@ -88,10 +88,10 @@ def insert_tail(body, ghost):
             body = body[:a] + ghost + '\n' + body[a:]
         else:
             close = body.rstrip().rfind('}')
-            body = body[:close] + ghost + '\n' + body[close:]
+            body = body[:close] + ghost + '\n    ' + body[close:]
     else:
         close = body.rstrip().rfind('}')
-        body = body[:close] + ghost + '\n' + body[close:]
+        body = body[:close] + ghost + '\n    ' + body[close:]
     return body
 
 
@@ -116,6 +116,14 @@ def insert_at(body, anchor_re, ghost, where='before', occurrence=0):
         raise AnchorLost(f"ghost anchor /{anchor_re}/ #{occurrence} not found")
     m = ms[occurrence]
     pos = m.start() if where == 'before' else m.end()
+    if where == 'before':
+        # an anchor in the middle of `return E` / `let x = E` moves to the start of that statement
+        i = pos - 1
+        while i >= 0 and not (src.mask[i] and body[i] in ';{}'):
+            i -= 1
+        head = body[i + 1:pos]
+        if re.fullmatch(r'\s*(return|let\s+(mut\s+)?[A-Za-z_][A-Za-z0-9_]*\s*(:[^=]*)?=)\s*', head):
+            pos = i + 1 + (len(head) - len(head.lstrip()))
     return body[:pos] + ' ' + ghost + ' ' + body[pos:]
 
 
